@@ -56,10 +56,10 @@ pub fn exec_cmd(push_state: &mut PushState, _instruction_cache: &InstructionCach
                 thread::sleep(Duration::from_millis(1000));
                 #[cfg(feature = "verif")]
                 if !crate::push::verif::advance_clock(1000) { thread::sleep(Duration::from_millis(1000)); }
-                let mut child = Command::new(cmd).args(nvals).spawn().expect("Command failed to start");
-
-                if let Some(stdout) = child.stdout.as_mut() {
-                    println!("{:?}", stdout);
+                if let Ok(mut child) = Command::new(cmd).args(nvals).spawn() {
+                    if let Some(stdout) = child.stdout.as_mut() {
+                        println!("{:?}", stdout);
+                    }
                 }
             }
         }
